@@ -53,6 +53,45 @@ pub fn gen(tier: &str, seed: u64) -> Vec<String> {
             }
         }
     }
+    // zippychord while caps-word is active (zippychord.rs: the expansion neither releases nor
+    // re-presses the shifts then); also outside the model, same model-free clause
+    for (ss, cw) in [("full", 200u32), ("none", 40), ("add-space-only", 200)] {
+        let (cfg, keys) = zippy_capsword_cfg(ss, cw);
+        for i in 0..(if thorough { 300 } else { 40 }) {
+            let (n_ev, gaps): (usize, &[u32]) = match i % 4 {
+                0 => (r.range(4, 14) as usize, &[1, 2, 3]),
+                1 => (r.range(4, 20) as usize, &[0, 1, 2, 5]),
+                2 => (r.range(4, 16) as usize, &[1, 5, 29, 30, 31, 41]),
+                _ => (r.range(20, 50) as usize, &[0, 0, 1]),
+            };
+            let h = consistent_history(&mut r, &keys, n_ev, gaps, 3000);
+            let kh: Vec<KEv> = h.into_iter().map(KEv::L).collect();
+            lines.push(mk_kline("KAN", false, &cfg, &kh));
+        }
+        // caps-word, then the chords of the dictionary in both orders, with and without a held shift
+        let p = |y: &str| KEv::L(HEv::Press(0, code(y)));
+        let rl = |y: &str| KEv::L(HEv::Release(0, code(y)));
+        let t = |n: u32| KEv::L(HEv::Tick(n));
+        for first in [["d", "y"], ["y", "d"]] {
+            for held in [None, Some("a"), Some("b")] {
+                for follow in [false, true] {
+                    let mut h = vec![p("c"), t(3), rl("c"), t(3)];
+                    if let Some(m) = held {
+                        h.extend([p(m), t(2)]);
+                    }
+                    h.extend([p(first[0]), t(2), p(first[1]), t(5), rl(first[0]), t(1), rl(first[1]), t(5)]);
+                    if follow {
+                        h.extend([p("1"), t(4), rl("1"), t(4)]);
+                    }
+                    if let Some(m) = held {
+                        h.extend([rl(m), t(2)]);
+                    }
+                    h.push(t(3000));
+                    lines.push(mk_kline("KAN", false, &cfg, &h));
+                }
+            }
+        }
+    }
     // many keys at once: more than 64 states, more than 8 tap-holds, more than 16 one-shots
     let many = ["a", "b", "c", "d", "e", "f", "g", "h", "i", "j", "k", "l", "m", "n", "o", "p", "q", "r", "s", "t"];
     for (name, action) in [
@@ -153,6 +192,64 @@ pub fn gen(tier: &str, seed: u64) -> Vec<String> {
                 ];
                 lines.push(mk_kline("KAN", false, &cfg, &h));
             }
+        }
+    }
+    // pointer movement in all its forms (src/kanata/mod.rs handle_move_mouse and the MoveMouse /
+    // MoveMouseAccel / MoveMouseSpeed arms): the acceleration ramp up to and past its end, both axes
+    // moving at once with and without movemouse-smooth-diagonals (movemouse_buffer, move_mouse_many),
+    // movemouse-inherit-accel-state (a second accelerated key takes over the ramp of the first), and
+    // several mouse buttons held by one key (only the last is released by the Release handler, the
+    // earlier ones are let go when the next is clicked)
+    for (smooth, inherit) in [(false, false), (true, false), (false, true), (true, true)] {
+        let cfg = format!(
+            "(defcfg{}{})\n(defsrc a b c d e f)\n(deflayer l0 (movemouse-accel-up 2 6 1 9) (movemouse-accel-left 3 10 2 20) (movemouse-down 2 3) (movemouse-right 5 1) (movemouse-speed 200) (multi mlft mrgt mmid))\n",
+            if smooth { " movemouse-smooth-diagonals yes" } else { "" },
+            if inherit { " movemouse-inherit-accel-state yes" } else { "" }
+        );
+        let ks: Vec<u16> = ["a", "b", "c", "d", "e", "f"].iter().map(|k| code(k)).collect();
+        // every history of two events over the four movement keys, short and long gaps
+        for h in all_histories(&ks[..4], 2, &[1, 13], 3000) {
+            let kh: Vec<KEv> = h.into_iter().map(KEv::L).collect();
+            lines.push(mk_kline("KAN", false, &cfg, &kh));
+        }
+        for i in 0..(if thorough { 300 } else { 30 }) {
+            let (n_ev, gaps): (usize, &[u32]) = match i % 3 {
+                0 => (r.range(3, 10) as usize, &[1, 2, 3, 7]),
+                1 => (r.range(3, 14) as usize, &[0, 1, 5, 6, 7, 11]),
+                _ => (r.range(6, 24) as usize, &[0, 0, 1, 2]),
+            };
+            let h = consistent_history(&mut r, &ks, n_ev, gaps, 3000);
+            let kh: Vec<KEv> = h.into_iter().map(KEv::L).collect();
+            lines.push(mk_kline("KAN", false, &cfg, &kh));
+        }
+    }
+    // two wheel keys of one axis held at once: the second takes over the scroll state, and the release
+    // of the first must leave it alone (Release handler, MWheel arm: direction differs)
+    {
+        let cfg = "(defsrc a b c d)\n(deflayer l0 (mwheel-up 5 120) (mwheel-down 7 120) (mwheel-left 5 120) (mwheel-right 7 120))\n";
+        let ks: Vec<u16> = ["a", "b", "c", "d"].iter().map(|k| code(k)).collect();
+        for (n, gaps) in [(2usize, &[1u32, 9][..]), (3, &[3u32][..])] {
+            for h in all_histories(&ks, n, gaps, 3000) {
+                let kh: Vec<KEv> = h.into_iter().map(KEv::L).collect();
+                lines.push(mk_kline("KAN", false, cfg, &kh));
+            }
+        }
+    }
+    // `rpt` while caps-word is active (the Repeat arm of handle_keystate_changes presses and releases
+    // LShift around the repeated key itself) and the toggling caps-word forms (CapsWord arm, Toggle)
+    {
+        let cfg = "(defsrc a b c d)\n(deflayer l0 (caps-word 60) q rpt (caps-word-toggle 60))\n";
+        let ks: Vec<u16> = ["a", "b", "c", "d"].iter().map(|k| code(k)).collect();
+        for h in all_histories(&ks, 3, &[2], 3000) {
+            let kh: Vec<KEv> = h.into_iter().map(KEv::L).collect();
+            lines.push(mk_kline("KAN", false, cfg, &kh));
+        }
+        for i in 0..(if thorough { 400 } else { 60 }) {
+            let gaps: &[u32] = if i % 2 == 0 { &[1, 2, 3] } else { &[1, 5, 59, 60, 61] };
+            let n_ev = r.range(4, 14) as usize;
+            let h = consistent_history(&mut r, &ks, n_ev, gaps, 3000);
+            let kh: Vec<KEv> = h.into_iter().map(KEv::L).collect();
+            lines.push(mk_kline("KAN", false, cfg, &kh));
         }
     }
     lines
